@@ -1,0 +1,175 @@
+//go:build verif
+
+package align
+
+// Property C19 (author C19b): copy-producing operations own their data, queries leave their input unchanged.
+// `modifies nothing` = no heap cell that exists at entry is written.
+
+// ---- Clone / CloneSeqBag ----
+//
+// Both hand a function literal to IterateAll. IterateAll is inlined into its caller (the `loop 1 in ...`
+// clauses below ask for it and give the invariant of ITS loop in terms of the caller's variables), and the
+// function literal is inlined at the call `it(...)` inside it: nothing is assumed about the iterator.
+
+// the normalised rename policy IgnoreIdentical stores
+//@ pure func c19b_policy(p int) int = ((p == IGNORE_NAME || p == IGNORE_SEQUENCE) ? p : IGNORE_NONE)
+
+// row r of c is a copy of row r of a, held in memory allocated during the call
+//@ pure func c19b_rowcopy(c *seqbag, a *seqbag, r int) bool = rowname(c, r) == rowname(a, r) && rowlen(c, r) == rowlen(a, r) && fresh(row(c, r)) && fresh(row(c, r).sequence)
+// the storage part alone (kept as an invariant of its own: it is the clause a sharing clone violates)
+//@ pure func c19b_ownrow(c *seqbag, r int) bool = fresh(row(c, r).sequence) && allocated(row(c, r).sequence)
+
+//@ func (*align).Clone
+//@   props C19
+//@   requires wfa(a)
+//@   ensures err == nil && c != nil && fresh(c) && wfa(c) && fresh(c.seqs) && fresh(c.seqmap)
+//@   ensures nrows(c) == nrows(a) && c.length == a.length && c.alphabet == a.alphabet && c.ignoreidentical == c19b_policy(a.ignoreidentical)
+//@   ensures forall r :: 0 <= r && r < nrows(a) ==> c19b_rowcopy(c, a, r)
+//@   ensures owns(c)
+//@   ensures forall r, k :: 0 <= r && r < nrows(a) && 0 <= k && k < rowlen(a, r) ==> cell(c, r, k) == cell(a, r, k)
+//@   modifies nothing
+//@   loop 1 in (*seqbag).IterateAll
+//@     invariant err == nil && stop == false && c != nil && fresh(c) && wfa(c) && fresh(c.seqs) && fresh(c.seqmap)
+//@     invariant nrows(c) == $i && (a.length == -1 || $i == 0 || c.length == a.length) && ($i == 0 ==> c.length == -1)
+//@     invariant c.alphabet == a.alphabet && c.ignoreidentical == c19b_policy(a.ignoreidentical)
+//@     invariant forall r :: 0 <= r && r < $i ==> c19b_ownrow(c, r)
+//@     invariant owns(c)
+//@     invariant forall r :: 0 <= r && r < $i ==> rowname(c, r) == rowname(a, r) && rowlen(c, r) == rowlen(a, r) && fresh(row(c, r))
+//@     invariant forall r, k :: 0 <= r && r < $i && 0 <= k && k < rowlen(a, r) ==> cell(c, r, k) == cell(a, r, k)
+//@     decreases nrows(a) - $i
+
+// The function literal of Clone, verified on its own (c and err are its captured variables): given a
+// well-formed clone under construction that does not yet hold the name and has the right length (or none),
+// it appends a row with that name whose storage is allocated by the literal itself and holds the same
+// residues; the slice it receives is only read. `inline`: call sites do not use this contract, the
+// literal is inlined where IterateAll calls it (see Clone above).
+//@ func (*align).Clone$1
+//@   props C19
+//@   inline
+//@   requires c != nil && wfa(c)
+//@   ensures wfa(c) && result == (err != nil)
+//@   ensures !old(has(c.seqmap, name)) && (old(c.length) == -1 || old(c.length) == len(sequence)) ==> err == nil && nrows(c) == old(nrows(c)) + 1 && rowname(c, old(nrows(c))) == name && rowlen(c, old(nrows(c))) == len(sequence) && fresh(row(c, old(nrows(c)))) && fresh(row(c, old(nrows(c))).sequence)
+//@   ensures !old(has(c.seqmap, name)) && (old(c.length) == -1 || old(c.length) == len(sequence)) ==> forall k :: 0 <= k && k < len(sequence) ==> cell(c, old(nrows(c)), k) == old(sequence[k])
+//@   ensures forall r :: 0 <= r && r < old(nrows(c)) ==> row(c, r) == old(row(c, r))
+//@   modifies c.seqs, c.length, c.seqs[+], map(c.seqmap)
+
+// CloneSeqBag: the same for a plain sequence bag (rows of any lengths)
+//@ func (*seqbag).CloneSeqBag
+//@   props C19
+//@   requires wf(sb)
+//@   ensures result1 == nil && result0 != nil && fresh(result0) && wf(result0) && fresh(result0.seqs) && fresh(result0.seqmap) && !isalign(result0)
+//@   ensures nrows(result0) == nrows(sb) && result0.alphabet == sb.alphabet && result0.ignoreidentical == c19b_policy(sb.ignoreidentical)
+//@   ensures forall r :: 0 <= r && r < nrows(sb) ==> c19b_rowcopy(result0, sb, r)
+//@   ensures owns(result0)
+//@   ensures forall r, k :: 0 <= r && r < nrows(sb) && 0 <= k && k < rowlen(sb, r) ==> cell(result0, r, k) == cell(sb, r, k)
+//@   modifies nothing
+//@   loop 1 in (*seqbag).IterateAll
+//@     invariant err == nil && stop == false && c != nil && fresh(c) && wf(c) && fresh(c.seqs) && fresh(c.seqmap) && !isalign(c)
+//@     invariant nrows(c) == $i && c.alphabet == sb.alphabet && c.ignoreidentical == c19b_policy(sb.ignoreidentical)
+//@     invariant forall r :: 0 <= r && r < $i ==> c19b_ownrow(c, r)
+//@     invariant owns(c)
+//@     invariant forall r :: 0 <= r && r < $i ==> rowname(c, r) == rowname(sb, r) && rowlen(c, r) == rowlen(sb, r) && fresh(row(c, r))
+//@     invariant forall r, k :: 0 <= r && r < $i && 0 <= k && k < rowlen(sb, r) ==> cell(c, r, k) == cell(sb, r, k)
+//@     decreases nrows(sb) - $i
+
+//@ func (*seqbag).CloneSeqBag$1
+//@   props C19
+//@   inline
+//@   requires c != nil && wf(c)
+//@   ensures wf(c) && result == (err != nil) && err == nil
+//@   ensures !old(has(c.seqmap, name)) ==> nrows(c) == old(nrows(c)) + 1 && rowname(c, old(nrows(c))) == name && rowlen(c, old(nrows(c))) == len(sequence) && fresh(row(c, old(nrows(c)))) && fresh(row(c, old(nrows(c))).sequence)
+//@   ensures !old(has(c.seqmap, name)) ==> forall k :: 0 <= k && k < len(sequence) ==> cell(c, old(nrows(c)), k) == old(sequence[k])
+//@   ensures forall r :: 0 <= r && r < old(nrows(c)) ==> row(c, r) == old(row(c, r))
+//@   modifies c.seqs, c.seqs[+], map(c.seqmap)
+
+// ---- queries ----
+
+// SiteConservation (used by the Clustal writer): reads one column through IterateChar and two constant tables
+//@ table strongGroups C19
+//@ table weakGroups C19
+
+//@ func (*align).SiteConservation
+//@   props C19
+//@   requires wfa(a)
+//@   ensures (err != nil) == (position < 0 || position >= a.length)
+//@   ensures conservation == POSITION_NOT_CONSERVED || conservation == POSITION_IDENTICAL || conservation == POSITION_CONSERVED || conservation == POSITION_SEMI_CONSERVED
+//@   ensures err != nil ==> conservation == POSITION_NOT_CONSERVED
+//@   modifies nothing
+//@   loop 1 in (*seqbag).IterateChar
+//@     invariant stop == false && err == nil && 0 <= position && position < a.length && conservation == POSITION_NOT_CONSERVED
+//@     invariant len(tmpstronggroups) == len(strongGroups) && len(tmpweakgroups) == len(weakGroups) && fresh(tmpstronggroups) && fresh(tmpweakgroups)
+//@     decreases nrows(a) - $i
+//@   loop 1
+//@     invariant err == nil && (conservation == POSITION_NOT_CONSERVED || conservation == POSITION_CONSERVED)
+//@     decreases len(tmpstronggroups) - $i
+//@   loop 2
+//@     invariant err == nil && (conservation == POSITION_NOT_CONSERVED || conservation == POSITION_SEMI_CONSERVED)
+//@     decreases len(tmpweakgroups) - $i
+
+//@ func (*align).SiteConservation$1
+//@   props C19
+//@   inline
+//@   requires a != nil && 0 <= position && position < len(sequence) && len(tmpstronggroups) == len(strongGroups) && len(tmpweakgroups) == len(weakGroups)
+//@   ensures result == false
+//@   modifies tmpstronggroups[*], tmpweakgroups[*]
+//@   loop 1
+//@     decreases len(strongGroups) - $i
+//@   loop 2
+//@     decreases len(g) - $i
+//@   loop 3
+//@     decreases len(weakGroups) - $i
+//@   loop 4
+//@     decreases len(g) - $i
+
+// Consensus: a new one-row alignment whose row is the slice MaxCharStats allocates; the input is only read.
+// (On an alignment without rows MaxCharStats panics in make([]uint8, -1): known finding of MaxCharStats, `maypanic` there.)
+//@ func (*align).Consensus
+//@   props C19
+//@   requires wfa(a)
+//@   ensures cons != nil && fresh(cons) && wfa(cons) && nrows(cons) == 1 && rowname(cons, 0) == "consensus" && cons.alphabet == a.alphabet
+//@   ensures cons.length == (a.length < 0 ? 0 : a.length) && fresh(row(cons, 0)) && fresh(row(cons, 0).sequence)
+//@   modifies nothing
+
+// ---- ORF search ----
+
+//@ pure func c19b_ascii(s *seq) bool = forall k :: 0 <= k && k < len(s.sequence) ==> s.sequence[k] < 128
+
+// (*seq).LongestORF runs a regular expression over strings.Replace(strings.ToUpper(string(s.sequence)), "U", "T", -1):
+// regexp and the string functions are not modelled, so this contract is ASSUMED. For ASCII residues upper-casing and the
+// one-byte replacement keep the length, so a match [start, end) of the transformed string lies within the row.
+// (With a byte >= 128, ToUpper re-encodes invalid UTF-8 as 3-byte U+FFFD and the offsets may exceed the row: outside every
+// property's alphabet, reported only.)
+//@ func (*seq).LongestORF
+//@   props C16 C19
+//@   trusted regular-expression search over an upper-cased string copy of the residues (regexp, strings.ToUpper/Replace are not modelled); the receiver is only read
+//@   requires s != nil
+//@   ensures (start == -1) == (end == -1)
+//@   ensures c19b_ascii(s) && start != -1 ==> 0 <= start && start + 6 <= end && end <= len(s.sequence)
+//@   modifies nothing
+
+// (*seq).Complement: rewrites the residues of the receiver in place (stops at the first unknown symbol); same slice, ASCII stays ASCII
+//@ func (*seq).Complement
+//@   props C19
+//@   requires s != nil
+//@   ensures s.sequence == old(s.sequence)
+//@   ensures old(c19b_ascii(s)) ==> c19b_ascii(s)
+//@   modifies s.sequence[*]
+//@   loop 1 in Complement
+//@     invariant err == nil
+//@     invariant old(c19b_ascii(s)) ==> forall k :: 0 <= k && k < len(seq) ==> seq[k] < 128
+//@     decreases len(seq) - $i
+
+// (*seqbag).LongestORF: a query producing a new sequence. The bag is only read, and the sequence returned must not share
+// storage with a row of the bag ("followed by arbitrary in-place mutations of the returned object").
+//@ func (*seqbag).LongestORF
+//@   props C16 C19
+//@   requires sb != nil && rowsok(sb)
+//@   requires forall r :: 0 <= r && r < nrows(sb) ==> c19b_ascii(row(sb, r))
+//@   ensures err == nil ==> orf != nil && fresh(orf) && fresh(orf.sequence)
+//@   ensures err == nil ==> len(orf.sequence) >= 6
+//@   modifies nothing
+//@   loop 1
+//@     invariant !found ==> beststart == 0 && bestend == 0
+//@     invariant err == nil && (found ==> bestseq != nil && allocated(bestseq) && 0 <= beststart && beststart + 6 <= bestend && bestend <= len(bestseq.sequence))
+//@     invariant found && fresh(bestseq) ==> fresh(bestseq.sequence) && allocated(bestseq.sequence)
+//@     decreases nrows(sb) - $i
